@@ -3,75 +3,83 @@
 (* over a larger universe than the exhaustive model) against the Spec layer.  One file holds many *)
 (* traces, each introduced by a Reset record.  Every event is                                      *)
 (*   {"ev": <action>, <arguments>, "obs": <what the real code showed after the call>}              *)
+(* Events without "obs" are blocks of a multi-block message: the code is observed after the last   *)
+(* block only, and the outputs of the blocks (kill events, request outcomes) are accumulated.      *)
 (* The Spec action is applied with the logged arguments and the logged observation is compared,    *)
 (* clause by clause, with the views DERIVED from the Spec's object map.  Failed clauses are named  *)
 (* (fail records) and the trace continues from the Spec's own state; an event whose environment    *)
 (* guard is false is a driver bug (Assert), not a violation.                                       *)
 EXTENDS SceneGraph, Integers, Json, IOUtils, TLCExt
 TraceLog == ndJsonDeserialize(IOEnv.TRACE_FILE)
-VARIABLES l, tid
-tvars == <<svars, l, tid>>
+VARIABLES l, tid,
+          acc     \* outputs of the blocks of the current message that were not observed yet
+tvars == <<svars, l, tid, acc>>
 
-\* the object the event addresses by full ID, as the Spec sees it BEFORE the step (a label for triage)
-Target == IF "fid" \notin DOMAIN TraceLog[l] THEN "-"
-          ELSE IF obj[TraceLog[l].fid].local = 0 THEN "unknown-fullid"
-          ELSE IF obj[TraceLog[l].fid].region \in tracked THEN "tracked-region" ELSE "regionless"
 \* named check: the logged value must equal the value the specification derives
-Chk(name, got, exp) == IF got = exp THEN TRUE
-                       ELSE PrintT(ToJson([fail |-> name, line |-> l, tid |-> tid, i |-> TraceLog[l].i,
-                                           exp |-> exp, tgt |-> Target]))
+Chk(name, got, exp, tags) == IF got = exp THEN TRUE
+                             ELSE PrintT(ToJson([fail |-> name, line |-> l, tid |-> tid, i |-> TraceLog[l].i,
+                                                 exp |-> exp, tags |-> tags]))
+\* triage labels of every labelled event are printed, so that a failing case can name what preceded it
+Note(tags) == IF tags = {} THEN TRUE ELSE PrintT(ToJson([note |-> tags, tid |-> tid, i |-> TraceLog[l].i]))
 Env(name, cond) == Assert(cond, <<"driver violated environment assumption", name, l>>)
 IsEvent(e) == l <= Len(TraceLog) /\ TraceLog[l].ev = e /\ l' = l + 1
 Rec == TraceLog[l]
 SetOf(s) == {s[i] : i \in DOMAIN s}
 
 \* logged observation against the Spec's views of the state AFTER the step
-ObsOK(o) ==
+Merge(x, y) == [killed |-> x.killed \cup y.killed, resolved |-> x.resolved \cup y.resolved,
+                cancelled |-> x.cancelled \cup y.cancelled]
+ObsOK(o, ou, tags) ==
     LET E == SObs(obj', tracked')
-    IN /\ Chk("raised", o.raised, "")
-       /\ Chk("idx.session", SetOf(o.sess), E.sess)
-       /\ Chk("idx.region.local", SetOf(o.regl), E.reg)
-       /\ Chk("idx.region.full", SetOf(o.regf), E.reg)
-       /\ Chk("links", {<<x[1], x[2], SetOf(x[3])>> : x \in SetOf(o.links)}, E.links)
-       /\ Chk("childids", o.childids, "")
-       /\ Chk("events.killed", SetOf(o.killed), out'.killed)
-       /\ Chk("futures.pending", SetOf(o.pending), pending')
-       /\ Chk("futures.resolved", SetOf(o.resolved), out'.resolved)
-       /\ Chk("futures.cancelled", SetOf(o.cancelled), out'.cancelled)
+    IN /\ Note(tags)
+       /\ Chk("raised", o.raised, "", tags)
+       /\ Chk("idx.session", SetOf(o.sess), E.sess, tags)
+       /\ Chk("idx.region.local", SetOf(o.regl), E.reg, tags)
+       /\ Chk("idx.region.full", SetOf(o.regf), E.reg, tags)
+       /\ Chk("links", {<<x[1], x[2], SetOf(x[3])>> : x \in SetOf(o.links)}, E.links, tags)
+       /\ Chk("childids", o.childids, "", tags)
+       /\ Chk("events.killed", SetOf(o.killed), ou.killed, tags)
+       /\ Chk("futures.pending", SetOf(o.pending), pending', tags)
+       /\ Chk("futures.resolved", SetOf(o.resolved), ou.resolved, tags)
+       /\ Chk("futures.cancelled", SetOf(o.cancelled), ou.cancelled, tags)
+\* after the Spec action: judge the observation if the event carries one, else accumulate the outputs
+After(tags) == IF "obs" \in DOMAIN Rec
+               THEN ObsOK(Rec.obs, Merge(acc, out'), tags) /\ acc' = NoOut
+               ELSE Note(tags) /\ acc' = Merge(acc, out')
 
-TInit == Init /\ l = 1 /\ tid = -1
+TInit == Init /\ l = 1 /\ tid = -1 /\ acc = NoOut
 TReset == /\ IsEvent("Reset")
           /\ obj' = [f \in FullIDs |-> Absent] /\ tracked' = InitTracked /\ pending' = {} /\ out' = NoOut
-          /\ tid' = Rec.tid
+          /\ tid' = Rec.tid /\ acc' = NoOut
 TAnnounce == /\ IsEvent("Announce")
              /\ Env("Announce", Rec.fid \in FullIDs /\ Rec.loc \in Locals /\ Rec.par \in Locals \cup {0}
                                 /\ AnnounceOK(Rec.kind, Rec.fid, Rec.loc, Rec.par, Rec.reg))
              /\ Announce(Rec.kind, Rec.fid, Rec.loc, Rec.par, Rec.reg)
-             /\ ObsOK(Rec.obs) /\ UNCHANGED tid
+             /\ After(Tags("Announce", Rec.kind, Rec.fid, Rec.reg, Rec.loc)) /\ UNCHANGED tid
 TTouch == /\ IsEvent("Touch")
           /\ Env("Touch", Rec.loc \in Locals /\ TouchOK(Rec.kind, Rec.reg, Rec.loc))
           /\ Touch(Rec.kind, Rec.reg, Rec.loc)
-          /\ ObsOK(Rec.obs) /\ UNCHANGED tid
+          /\ After(Tags("Touch", Rec.kind, "-", Rec.reg, Rec.loc)) /\ UNCHANGED tid
 TProps == /\ IsEvent("Props")
           /\ Env("Props", Rec.fid \in FullIDs)
           /\ Props(Rec.fid)
-          /\ ObsOK(Rec.obs) /\ UNCHANGED tid
+          /\ After(Tags("Props", "-", Rec.fid, "-", 0)) /\ UNCHANGED tid
 TKill == /\ IsEvent("Kill")
          /\ Env("Kill", Rec.reg \in tracked /\ Rec.loc \in Locals)
          /\ Kill(Rec.reg, Rec.loc)
-         /\ ObsOK(Rec.obs) /\ UNCHANGED tid
+         /\ After(Tags("Kill", "-", "-", Rec.reg, Rec.loc)) /\ UNCHANGED tid
 TTrack == /\ IsEvent("Track")
           /\ Env("Track", Rec.reg \in Trackable \ tracked)
           /\ Track(Rec.reg)
-          /\ ObsOK(Rec.obs) /\ UNCHANGED tid
+          /\ After({}) /\ UNCHANGED tid
 TTeardown == /\ IsEvent("Teardown")
              /\ Env("Teardown", Rec.reg \in tracked)
              /\ Teardown(Rec.reg)
-             /\ ObsOK(Rec.obs) /\ UNCHANGED tid
+             /\ After(Tags("Teardown", "-", "-", Rec.reg, 0)) /\ UNCHANGED tid
 TRequest == /\ IsEvent("Request")
             /\ Env("Request", Rec.loc \in Locals /\ RequestOK(Rec.reg, Rec.loc, Rec.ty))
             /\ Request(Rec.reg, Rec.loc, Rec.ty)
-            /\ ObsOK(Rec.obs) /\ UNCHANGED tid
+            /\ After({}) /\ UNCHANGED tid
 TNext == TReset \/ TAnnounce \/ TTouch \/ TProps \/ TKill \/ TTrack \/ TTeardown \/ TRequest
 TraceSpec == TInit /\ [][TNext]_tvars
 TraceAccepted == PrintT("TRACE_REACHED " \o ToString(TLCGet("stats").diameter - 1) \o " OF " \o ToString(Len(TraceLog)))
